@@ -624,15 +624,15 @@ def register(reg):
     CUTS = {
         "rxn_cnt = len(reactions)": SHAPE + NO_SEARCH_KEYS + [
             allrows("{Q}['solved'] == False and not ('solved_by' in {Q}) and not ('carbon_balance_check' in {Q}) and {Q}['input_reaction'] == {Q}[{RC}]")],
-        "self.rb_method.run(reactions, stats=stats)": COMMON + NO_SEARCH_KEYS + NOMCSROWS,
-        "self.rb_validator.check": COMMON + NO_SEARCH_KEYS + NOMCSROWS,
-        "self.mcs_search.find": COMMON + NO_SEARCH_KEYS + REVERTED + NOMCSROWS,
-        "self.mcs_method.run": COMMON + AFTER_FIND + REVERTED + NOMCSROWS,
-        "self.mcs_validator.check(reactions)": COMMON + AFTER_MCS + NOMCSROWS,
-        "self.__post_process": COMMON + AFTER_MCS + MCSROWS,
-        "self.rb_method.run(reactions)": COMMON + AFTER_MCS + MCSROWS,
-        "self.mcs_validator.check(reactions, override_unsolved=True": COMMON + AFTER_MCS + MCSROWS,
-        "self.conf_predictor.predict": COMMON + FINAL + MCSROWS,
+        "self.rb_method.run@1": COMMON + NO_SEARCH_KEYS + NOMCSROWS,
+        "self.rb_validator.check@1": COMMON + NO_SEARCH_KEYS + NOMCSROWS,
+        "self.mcs_search.find@1": COMMON + NO_SEARCH_KEYS + REVERTED + NOMCSROWS,
+        "self.mcs_method.run@1": COMMON + AFTER_FIND + REVERTED + NOMCSROWS,
+        "self.mcs_validator.check@1": COMMON + AFTER_MCS + NOMCSROWS,
+        "self.__post_process@1": COMMON + AFTER_MCS + MCSROWS,
+        "self.rb_method.run@2": COMMON + AFTER_MCS + MCSROWS,
+        "self.mcs_validator.check@2": COMMON + AFTER_MCS + MCSROWS,
+        "self.conf_predictor.predict@1": COMMON + FINAL + MCSROWS,
         "assert rxn_cnt": SHAPE + CNT + [
             allrows(IB + " == " + BAL),
             allrows("implies(" + IB + ", {Q}['solved'] == True and {Q}[{RC}] == {Q}['input_reaction'])"),
